@@ -26,33 +26,48 @@ type MutableWorld interface {
 	EachModifiedTag(each func(f ModifiedTag, goroutine int) error, options *b6.EachFeatureOptions) error
 }
 
+// sortAndDiffTokens returns the tokens that are in after but not in before,
+// and those in before but not in after. A token can occur several times in
+// either list (the ancestors of the cells of a covering are listed once per
+// level they're reached from, for example); repeats are skipped, so the
+// result is the difference between the sets of tokens. Counting repeats
+// instead would report a token that goes from two occurrences to one as
+// removed, and the feature would be dropped from an index entry it still
+// belongs to.
 func sortAndDiffTokens(before []string, after []string) ([]string, []string) {
 	added := make([]string, 0, len(after))
 	removed := make([]string, 0, len(before))
 	sort.Strings(before)
 	sort.Strings(after)
+	next := func(tokens []string, i int) int {
+		i++
+		for i < len(tokens) && tokens[i] == tokens[i-1] {
+			i++
+		}
+		return i
+	}
 	a := 0
 	b := 0
 	for a < len(after) && b < len(before) {
 		switch strings.Compare(after[a], before[b]) {
 		case 0:
-			a++
-			b++
+			a = next(after, a)
+			b = next(before, b)
 		case -1:
 			added = append(added, after[a])
-			a++
+			a = next(after, a)
 		case 1:
 			removed = append(removed, before[b])
-			b++
+			b = next(before, b)
 		}
 	}
 	for a < len(after) {
 		added = append(added, after[a])
-		a++
+		a = next(after, a)
 	}
 	for b < len(before) {
 		removed = append(removed, before[b])
-		b++
+		b = next(before, b)
 	}
 	return added, removed
 }
